@@ -39,7 +39,12 @@ RULE = ('programs of 2-3 threads x 1-3 operations over one registry (inc / gauge
         'every run is (1) projected to Acq/Rel/Load/Store/table/Callout events and replayed in the extracted model along the '
         'same event order, (2) judged by the direct oracle, (3) compared with the model on final cells and tables; '
         'the fixed list starts with programs of TWO and THREE threads that collect / scrape the SAME families (a labelled metric with 2-3 '
-        'children that exist before the threads start, a histogram, a summary: the optional `init` part of a case, run by the set-up code, '
+        'children that exist before the threads start, a histogram, a summary; before those, programs in which one thread issues an '
+        'update whose AMOUNT cannot be added to the value - inc / observe of a str, None, a Decimal, a list, an object whose '
+        '__radd__ raises: the call raises by design (it is the only exception the oracle accepts, the thread stops there) '
+        'inside or before the critical section (observed sequentially, model program OIncFail) and the other threads must go '
+        'on updating / collecting the same series without blocking; 15% of the random programs end a thread with such an update; '
+        'the optional `init` part of a case, run by the set-up code, '
         'the model starts from that heap / child tables) while another thread updates; a third of the random programs have >= 2 collecting '
         'threads and nearly half an `init` part; every collect / scrape result is kept as the ordered list of its samples and judged on its '
         'own (each series once, value = the value this collect read, nothing read is missing, no counter lower than in a collect that had '
@@ -59,6 +64,8 @@ ASSUMPTIONS = ['collectors called from registry.collect() may take their own mut
                'remove()/clear() are explored in the in-memory back-end only (documented as not implemented in multiprocess mode: '
                'a re-created child resumes from the file)',
                'labelled children are Counter children (one value object); _exemplar cells and Info/Enum are not instrumented',
+               'an update with an amount that cannot be added is issued on the unlabelled metrics only, as the last operation of '
+               'its thread; whether a refused observation was counted (summary count / histogram bucket) before it failed is not fixed',
                'metrics constructed by the thread programs have distinct names (a duplicate name is refused with ValueError by '
                'design, not because of the interleaving); labelled metrics constructed by a thread get no children']
 TIME_BUDGET = {'quick': 110, 'thorough': 900}
@@ -815,9 +822,54 @@ def _num(v):
     return int(f)
 
 
+# Updates whose AMOUNT cannot be added to the value (the call raises by design, whatever the interleaving): the series
+# must stay usable by every other thread afterwards.  op -> (the cell whose update fails, the metric, the method)
+BAD_OPS = {'inc_bad': 1, 'ginc_bad': 2, 'obs_s_bad': 4, 'obs_h_bad': 5}
+BAD_KINDS = ('str', 'none', 'decimal', 'radd', 'list')
+
+
+class Unaddable:
+    """Compares like a number (so it passes `amount < 0` and the bucket search), cannot be added."""
+
+    def __lt__(self, o):
+        return False
+
+    def __le__(self, o):
+        return True
+
+    def __gt__(self, o):
+        return False
+
+    def __ge__(self, o):
+        return True
+
+    def __radd__(self, o):
+        raise ValueError('this amount cannot be added')
+
+    __add__ = __radd__
+
+
+def bad_amount(kind):
+    if kind == 'str':
+        return 'x'
+    if kind == 'none':
+        return None
+    if kind == 'decimal':
+        import decimal
+        return decimal.Decimal(1)
+    if kind == 'list':
+        return [1]
+    if kind == 'radd':
+        return Unaddable()
+    raise AssertionError('bad amount kind %r' % (kind,))
+
+
 def do_op(world, run, tid, op, results):
     k = op[0]
-    if k == 'inc':
+    if k in BAD_OPS:
+        target = {'inc_bad': world.c.inc, 'ginc_bad': world.g.inc, 'obs_s_bad': world.s.observe, 'obs_h_bad': world.h.observe}[k]
+        target(bad_amount(op[1]))
+    elif k == 'inc':
         world.c.inc(op[1])
     elif k == 'ginc':
         world.g.inc(op[1])
@@ -957,6 +1009,7 @@ def _run_schedule(case, mp_dir):
     init_state = run_init(world, run, case.get('init') or [])
     results = [[] for _ in range(n)]
     excs = [None] * n
+    exc_ops = [None] * n
     libdirs = (LIBDIR, os.path.dirname(patch()['values'].__file__) + os.sep)
 
     def local(frame, event, arg):
@@ -993,6 +1046,7 @@ def _run_schedule(case, mp_dir):
                 except BaseException as e:       # an operation raised: recorded, the thread stops (as in the model)
                     sys.settrace(None)
                     excs[tid] = '%s: %s' % (type(e).__name__, str(e)[:200])
+                    exc_ops[tid] = opi
                     run.log(tid, 'exc', None, type(e).__name__)
                     # locks are released by the library's `with`; anything still held is reported by the oracle
                     break
@@ -1098,7 +1152,7 @@ def _run_schedule(case, mp_dir):
         nm = names.get(id(o))
         if nm is not None and id(o) in world.series_of:
             series.setdefault(world.series_of[id(o)], []).append(list(nm))
-    return dict(events=ev, results=results, excs=excs, aborted=run.aborted, deadlock=run.deadlock_info,
+    return dict(events=ev, results=results, excs=excs, exc_ops=exc_ops, aborted=run.aborted, deadlock=run.deadlock_info,
                 final=final, tables=tables, final_collect=final_collect, final_exc=final_exc, files=files,
                 points=run.points, decisions=[list(d) for d in run.decisions], alts=run.alts,
                 switches_inside=run.switches_inside, unknown_locks=unknown, still_held=still_held,
@@ -1168,8 +1222,14 @@ def _x(n):
     return (Sym('s'), n)
 
 
-def model_ops(op):
+def model_ops(op, be='mem'):
     k = op[0]
+    if k in BAD_OPS:
+        mode = bad_mode(be, k, op[1])
+        if mode is None:
+            raise AssertionError('operation %r is not supported in back-end %s (see bad_mode)' % (op, be))
+        first = [(Sym('inc'), _x(3), 1)] if mode[0] else []
+        return first + [(Sym('incfail'), _x(BAD_OPS[k]), mode[1])]
     if k == 'inc':
         return [(Sym('inc'), _x(1), int(op[1]))]
     if k == 'ginc':
@@ -1353,6 +1413,32 @@ def probe_order(be):
     ORDER['probed'] = be
 
 
+BADMODE = {}
+
+
+def bad_mode(be, k, kind):
+    """An update with an amount that cannot be added raises by design.  WHERE it raises is not fixed by the property:
+    inside the critical section of the value (`with lock: self._value += amount`: the cell is read, the addition raises,
+    the mutex is released by the unwinding) -> True; before any mutex is taken (the amount is refused up front) -> False.
+    Observed once per back-end in a sequential run and selects between two model programs, both in the verified class.
+    Returns (Summary.observe counted the observation before its sum failed, the addition raised inside the critical
+    section), or None: the call does not raise, or its events have another shape - the operation is then not generated."""
+    key = (be, k, kind)
+    if key not in BADMODE:
+        probe_order(be)
+        o = impl(dict(be=be, pre_reg=[1, 2, 3, 4], threads=[[[k, kind]]], sched=dict(mode='coarse', pre=[])))
+        mode = None
+        if not o.get('harness_error') and o['excs'][0] and not o['aborted']:
+            kinds = [e[0] for e in norm_impl_events(o['events'])]
+            for first in ([], ['acq', 'ld', 'st', 'rel'] if k == 'obs_s_bad' else []):
+                if kinds == first + ['acq', 'ld', 'rel', 'exc'] or (kinds == first + ['acq', 'ld', 'exc'] and o.get('still_held')):
+                    mode = (bool(first), True)     # (the second shape is a mutex that is NOT released: the model says it is)
+                elif kinds == first + ['exc']:
+                    mode = (bool(first), False)
+        BADMODE[key] = mode
+    return BADMODE[key]
+
+
 def probe_flags(be):
     """Does get() lock, and does the counter sample take a second (exemplar) critical section?  Observed, because the
     property does not require either: both variants of the model program are in the verified class."""
@@ -1377,7 +1463,7 @@ def model_replay(m, case, obs):
     probe_order(be)
     ievs = norm_impl_events(obs['events'])
     tids = [e[1] for e in ievs]
-    threads = [[mo for op in prog for mo in model_ops(op)] for prog in case['threads']]
+    threads = [[mo for op in prog for mo in model_ops(op, be)] for prog in case['threads']]
     nch = max(obs.get('nchildren', 0), 1)
     locs = [_x(i) for i in range(1, 9)] + [(Sym('c'), c, 0) for c in range(nch)]
     pre = case.get('pre_reg', [1, 2, 3, 4, 5])
@@ -1443,13 +1529,24 @@ def direct(case, obs):
         return 'deadlock: no runnable thread; blocked on %r' % (obs['deadlock'],)
     if obs['aborted']:
         return 'run did not terminate (%s)' % obs['aborted']
+    # an update whose amount cannot be added raises by design (whatever the interleaving); nothing else may raise.  The
+    # thread that raised stops there: the operations it did not reach were not issued
+    exc_ops = obs.get('exc_ops') or [None] * len(obs['excs'])
+    issued = []
     for t, e in enumerate(obs['excs']):
+        prog = case['threads'][t]
         if e:
-            return 'thread %d raised %s' % (t, e)
-    if obs['final_exc']:
-        return 'final collect raised %s' % obs['final_exc']
+            i = exc_ops[t]
+            if i is None or not (0 <= i < len(prog)) or prog[i][0] not in BAD_OPS:
+                return 'thread %d raised %s' % (t, e)
+            prog = prog[:i + 1]
+        issued.append(prog)
+    if issued != case['threads']:
+        case = dict(case, threads=issued)
     if obs['still_held']:
         return 'locks still held after all threads finished: %r' % (obs['still_held'],)
+    if obs['final_exc']:
+        return 'final collect raised %s' % obs['final_exc']
     # metrics constructed on the shared registry by the thread programs: registered (and collected, complete) at the
     # end unless unregistered again; a concurrent collect reports such a metric completely or not at all
     made = constructs(case)
@@ -1495,8 +1592,15 @@ def direct(case, obs):
         want[6 + i] = sum(1 for o in ops if o[0] == 'obs_h' and [j for j, bb in enumerate(H_BOUNDS) if o[1] <= bb][0] == i)
     if not any(o[0] == 'gset' for o in ops):
         want[2] = sum(o[1] for o in ops if o[0] == 'ginc')
+    # a refused observation may or may not have been counted before its amount failed (the property fixes neither):
+    # the count of a summary / one bucket of a histogram may exceed the accepted observations by the refused ones
+    nbad = dict((k, sum(1 for o in ops if o[0] == k)) for k in BAD_OPS)
+    slack = {3: nbad['obs_s_bad'], 6: nbad['obs_h_bad'], 7: nbad['obs_h_bad'], 8: nbad['obs_h_bad']}
+
+    def differs(v, cell):
+        return not (isinstance(v, (int, float)) and want[cell] <= v <= want[cell] + slack.get(cell, 0))
     for cell, w in want.items():
-        if fin['s%d' % cell] != w:
+        if differs(fin['s%d' % cell], cell):
             return 'lost update: cell %d holds %r, the increments issued sum to %r' % (cell, fin['s%d' % cell], w)
     fc = obs['final_collect']
     names = {1: 'c_total|', 3: 's_count|', 4: 's_sum|', 5: 'h_sum|'}
@@ -1509,7 +1613,7 @@ def direct(case, obs):
             regd.discard(o[1])
     for cell, nm in names.items():
         owner = {1: 1, 3: 3, 4: 3, 5: 4}[cell]
-        if owner in regd and fc.get(nm) != want[cell]:
+        if owner in regd and differs(fc.get(nm), cell):
             return 'final collect reports %s = %r, the increments issued sum to %r' % (nm, fc.get(nm), want[cell])
     # labelled children (two parents)
     removal = any(o[0] in ('remove', 'clear') for o in ops)
@@ -1809,7 +1913,21 @@ SYSTEMATIC_COLLECT = [
     ([1, 3], [[['collect'], ['collect']], [['collect']], [['inc', 2], ['obs_s', 3]]], [['inc', 1], ['obs_s', 1]]),
     ([5, 9], [[['collect']], [['collect']], [['collect']]], [['linc', 0, 1], ['linc2', 0, 2], ['linc2', 1, 3]]),
 ]
-SYSTEMATIC = SYSTEMATIC_COLLECT + SYSTEMATIC_CONSTRUCT + SYSTEMATIC
+# one thread issues an update whose AMOUNT cannot be added to the value (the call raises by design); the other threads go
+# on using the same series: none of them may block or raise, the accepted increments are all there at the end
+SYSTEMATIC_BAD = [
+    ([4], [[['obs_h_bad', 'str']], [['obs_h', 2]], [['collect']]]),
+    ([3], [[['obs_s', 1], ['obs_s_bad', 'none']], [['obs_s', 3], ['collect']]]),
+    ([2], [[['ginc_bad', 'decimal']], [['ginc', 1], ['gset', 4]]]),
+    ([1], [[['inc_bad', 'radd']], [['inc', 1]], [['scrape']]]),
+]
+SYSTEMATIC = SYSTEMATIC_BAD + SYSTEMATIC_COLLECT + SYSTEMATIC_CONSTRUCT + SYSTEMATIC
+
+
+def unsupported_bad(be, threads):
+    """The refused-amount operations of the programs that do not raise (or not in a modelled way) in this back-end."""
+    return [(t, j) for t, prog in enumerate(threads) for j, op in enumerate(prog)
+            if op[0] in BAD_OPS and bad_mode(be, op[0], op[1]) is None]
 
 
 def random_program(rng):
@@ -1877,6 +1995,14 @@ def random_program(rng):
         for c in rng.sample((1, 3, 4, 5, 9), 2):
             if c not in pre:
                 pre.append(c)
+    # an update with an amount that cannot be added, as the LAST operation of a thread (the thread stops there)
+    if rng.random() < 0.15:
+        for t in rng.sample(range(n), rng.choice((1, 1, 2))):
+            k = rng.choice(('obs_h_bad', 'obs_s_bad', 'ginc_bad', 'inc_bad'))
+            threads[t].append([k, rng.choice(BAD_KINDS)])
+            owner = {'obs_h_bad': 4, 'obs_s_bad': 3, 'ginc_bad': 2, 'inc_bad': 1}[k]
+            if owner not in pre and rng.random() < 0.7:
+                pre.append(owner)
     # the state before the threads start: labelled children that exist (with values), static metrics already updated
     init = []
     if rng.random() < 0.45:
@@ -1906,6 +2032,8 @@ def cases(ctx):
     for i in range(ctx.n(6000, 60000)):
         pre, threads, mem_only, init = random_program(rng)
         be = 'mp' if (i % 3 == 2 and not mem_only) else 'mem'
+        for t, j in unsupported_bad(be, threads):
+            threads[t][j] = ['inc', 1]
         if rng.random() < 0.5:
             sched = dict(mode='fine', seed=rng.randrange(1 << 30), p=rng.choice((0.01, 0.03, 0.1)))
         else:
@@ -2035,7 +2163,8 @@ def run(ctx, rep, corpus):
         # remove()/clear() are documented as not implemented in multiprocess mode (a re-created child resumes from the
         # file): programs containing them are explored in the in-memory back-end only
         todo = [(be, ent[0], ent[1], ent[2] if len(ent) > 2 else None) for ent in SYSTEMATIC for be in ('mem', 'mp')
-                if not (be == 'mp' and any(op[0] in ('remove', 'clear') for prog in ent[1] for op in prog))]
+                if not (be == 'mp' and any(op[0] in ('remove', 'clear') for prog in ent[1] for op in prog))
+                and not unsupported_bad(be, ent[1])]
         exhaustive = []
         for i, (be, pre, th, init) in enumerate(todo):
             share = t0 + budget * 0.6 * (i + 1) / len(todo)
